@@ -447,6 +447,9 @@ type (
 var CtxKey = &CtxKeyName{}
 
 func CtxToEv(ctx context.Context) *Event {
+	if ctx == nil {
+		return nil
+	}
 	v, _ := ctx.Value(CtxKey).(CtxValue)
 	return v.Event
 }
